@@ -1,4 +1,6 @@
 import Dia.ServerThm
+import Dia.StreamSeq
+import Dia.HistoryThm
 /-! # C06 - Stream framing is independent of how bytes are segmented. Property theorems only.
 A byte stream is a script of successive `poll_read` outcomes (`REv`: a chunk, `Pending`, end, error); `flat` is the
 octet sequence it delivers. `noEmpty` says the script is a well-behaved one: no i/o error, no empty chunk. -/
@@ -34,5 +36,23 @@ puts exactly the octets handed to `write_all` on the stream -/
 theorem C06_write (bs : Bytes) (w : List WEv) (hw : neverFails w) :
     ∃ w', writeAll bs w = (true, bs, w') ∧ neverFails w' :=
   writeAll_ok bs w hw
+
+/-- **C06, read side, whole stream.** Reading a stream that carries a concatenation of acceptable frames - followed by
+anything - yields exactly those messages, in order, the i-th call consuming exactly the i-th frame, however the
+octets are delivered. (Induction over the frame list; no bound on its length.) -/
+theorem C06_read_all (cfg : Cfg) (dict : Lookup) (frames : List Bytes) (msgs : List Msg) (evs : List REv) (more : Bytes)
+    (hl : frames.length = msgs.length)
+    (hacc : ∀ i (h1 : i < frames.length) (h2 : i < msgs.length), Accepts cfg dict frames[i] msgs[i])
+    (hne : noEmpty evs) (hflat : flat evs = frames.flatten ++ more) :
+    decodeSeq cfg dict frames.length evs = (msgs.zip frames).map (fun mf => (COut.ok mf.1, mf.2.length)) :=
+  decodeSeq_frames cfg dict frames msgs evs more hl hacc hne hflat
+
+/-- **C06, write side, whole codec.** `Codec::encode` of a message whose bookkeeping is consistent, over a stream that
+accepts octets in arbitrary partial amounts with arbitrary pauses, reports success and has put exactly the RFC 6733
+encoding of the message on the stream -/
+theorem C06_encode (m : Msg) (w : List WEv) (hw : neverFails w) (hg : m.Good) (h24 : m.length < 16777216) :
+    Codec.encodeTo m w = (true, Spec.encode m.abs) := by
+  have hs := (Msg.enc_spec m hg.wf hg.cons hg.len h24).1
+  rw [Codec.encodeTo_ok m w hw (by rw [hs]), hs]
 
 end Dia
